@@ -22,9 +22,9 @@ func init() {
 		},
 		ShardTimeout: func(tier string) int {
 			if tier == "quick" {
-				return 400
+				return 1200
 			}
-			return 12000
+			return 14400
 		},
 		Rule:        "case = one concurrent run in a -race binary (GORACE halt_on_error=0, reports parsed afterwards, any report with a jrhy/mast frame is a violation) of 4-16 goroutines, each owning its own tree and private model, over shared persisted nodes; three workloads by case index: (1) FROZEN: a persisted tree is loaded once into a plain map of decoded nodes which per-goroutine cache views hand out with no lock or atomic at all, writes go to private overlays - the shared nodes are the only shared memory; (2) LIVE: one real NewNodeCache + in-memory store, goroutines in groups run identical op sequences so the same node names are produced, cached and looked up concurrently, persisting often; (3) CLONES: a parent tree with dirty and persisted parts is cloned N times, each clone handed to a worker while the parent keeps mutating; every goroutine runs a C01 history (insert/update/delete/get/iter/clone/persist/reload) checked against its model; non-trivial = >= 2 goroutines read the same shared node AND >= 200 mutations ran; distinct by (workload, config, seed)",
 		Assumptions: []string{"the race detector only reports accesses that execute in the run and keeps a bounded history per memory word", "harness state is per-goroutine (forked contexts) or read-only after the go statements; results are merged after WaitGroup.Wait"},
